@@ -609,9 +609,17 @@ func (interp *Interpreter) ast(f ast.Node) (string, *node, error) {
 				k.ident = "_"
 				v := addChild(&root, astNode{b, nod}, pos, identExpr, aNop)
 				v.ident = "_"
-			case forStmt7:
-				k := addChild(&root, astNode{b, nod}, pos, identExpr, aNop)
-				k.ident = "_"
+			case forStmt1, forStmt3, forStmt6, forStmt7:
+				// One location per variable defined by the init statement, for the
+				// per-iteration copy of the variable (go1.22 loop variable semantics).
+				nvar := 1
+				if init := anc.node.child[0]; init.kind == defineStmt && init.nleft > 1 {
+					nvar = init.nleft
+				}
+				for i := 0; i < nvar; i++ {
+					k := addChild(&root, astNode{b, nod}, pos, identExpr, aNop)
+					k.ident = "_"
+				}
 			}
 
 		case *ast.BranchStmt:
